@@ -22,6 +22,7 @@ func unify(x, y *Type, m map[string]*Type, inProcess util.PtrPtrSet) *Type {
 		// return nil
 	} else {
 		inProcess.Add(x, y)
+		defer inProcess.Remove(x, y)
 	}
 
 	switch {
